@@ -52,6 +52,11 @@ class OpCtx:
         self.touched = set()        # names changed by nested operations
         self.attempted = []
 
+    @property
+    def interleaved(self):
+        """Did another actor really do something inside this operation?"""
+        return any('op' in n for n in self.nested)
+
 
 # ---------------------------------------------------------------------------
 # adapters: what differs between the three managers
@@ -299,7 +304,7 @@ class Engine(osproxy.Sink):
 
     def violate(self, mech, msg, witness=None, call='end'):
         top = self.stack[0] if self.stack else self.last_top
-        if top is not None and top.fired:
+        if top is not None and top.interleaved:
             mech = '%s:%s:%s-%s-window' % (mech, self.kind, top.anchor, call)
         else:
             mech = '%s:%s' % (mech, self.kind)
@@ -444,6 +449,7 @@ class Engine(osproxy.Sink):
     def _fire(self, top, call, phase, name, prog):
         top.anchor = top.last_call
         top.fired += 1
+        top.nested.append(dict(at='%s %s(%s)' % (phase, call, name or '')))
         self.in_fire = True
         try:
             self._program(top, prog, name)
@@ -552,9 +558,9 @@ class Engine(osproxy.Sink):
         self.ctx.count('ops_%s_%s' % (self.kind, k))
         if octx.fired:
             self.ctx.count('failpoints_fired')
+        if octx.interleaved:
             self.ctx.count('failpoint_ops_%s' % k)
-            if octx.nested:
-                self.flags.add('interleaved')
+            self.flags.add('interleaved')
             self.check_interleaved(op, octx, pre, pre_alive, ret, exc, post)
         else:
             self.check_sequential(op, octx, pre, pre_alive, ret, exc, post)
